@@ -197,6 +197,17 @@ def declared_null(content):
     return None
 
 
+def declared_null_line(content):
+    """The value of the first NULL line of ~W (any type), or None when there is no such line."""
+    for s in content['sects']:
+        if s['typ'] == 'W' and s['kind'] == 'H':
+            for h in s['lines']:
+                if h['mnem'] == 'NULL':
+                    return h['value']
+            break
+    return None
+
+
 def expected(content, null=NULL_DEFAULT):
     """Canonical structure the reader must produce (floats as hex strings); bad cells become `null`."""
     def eline(h):
@@ -353,6 +364,30 @@ def gen_bad_token(rng):
             return t
 
 
+SPECIAL_WORD_CURVES = [('TIME', 'MS'), ('TIME', 'S'), ('TIME', ''), ('TIME', 'D'), ('TIME', 'hhmmss'), ('TIME', 'HHMMS'),
+                       ('DATE', ''), ('DATE', 'HHMMSS'), ('DATE', 'd'), ('DATE', 'DD'), ('ETIM', 'HHMMSS'), ('GR', 'HHMMSS'),
+                       ('X', 'D'), ('DEPT', 'D'), ('time', 'HHMMSS'), ('Date', 'D'), ('TIMES', 'HHMMSS'), ('DATES', 'D')]
+
+
+def near_null(rng, nm, ne):
+    """A data value close to but different (as a double) from the null nm*10**ne: NULL +- k ulp-ish, NULL*(1 +- 1e-j),
+    NULL +- 10**-q.  Falls back to the exact null when the candidate rounds to the same double."""
+    k = rng.randrange(3)
+    if k == 0:                                   # a few units in a far decimal place (down to the last bits of the double)
+        j = rng.randint(2, 14)
+        m, e = nm * 10 ** j + rng.choice([-1, 1]) * rng.randint(1, 99), ne - j
+    elif k == 1:                                 # relative 1e-2 .. 1e-7
+        j = rng.randint(2, 7)
+        m, e = nm * 10 ** j + rng.choice([-1, 1]) * nm * rng.randint(1, 9), ne - j
+    else:                                        # absolute 0.0001 .. 0.01 (times 1..9)
+        q = rng.randint(2, 4)
+        e = min(ne, -q)
+        m = nm * 10 ** (ne - e) + rng.choice([-1, 1]) * rng.randint(1, 9) * 10 ** (-q - e)
+    if dec_to_float(m, e) == dec_to_float(nm, ne):
+        return ['n', nm, ne]
+    return ['n', m, e]
+
+
 def gen_content(rng, max_curves=6, max_frames=8, wrap=None, null=None, bad_rate=0.08, allow_bad_x=True):
     """A well-formed content (see Spec.lean `wfContent`).  `wrap`: None = random."""
     if wrap is None:
@@ -371,6 +406,12 @@ def gen_content(rng, max_curves=6, max_frames=8, wrap=None, null=None, bad_rate=
         h = gen_hline(rng, used=[c['mnem'] for c in curves], mnem='DEPT' if i == 0 and rng.random() < 0.5 else None)
         if rng.random() < 0.6: h['value'] = ['t', '']
         curves.append(h)
+    # the reader's special words (DATE.D and TIME.HHMMSS are text columns) in every combination that is NOT special
+    if rng.random() < 0.25:
+        i = rng.randrange(ncur)
+        mn, un = rng.choice(SPECIAL_WORD_CURVES)
+        if mn not in [c_['mnem'] for c_ in curves]:
+            curves[i]['mnem'], curves[i]['unit'] = mn, un
     if null is None:
         null = rng.choice([['f', -99925, -2]] * 4 + [['f', -999250, -3], None, ['f', -9999, 0], ['i', -9999], ['f', -99999, -2], ['t', 'none'], ['b', 1]])
     wl = []
@@ -396,6 +437,7 @@ def gen_content(rng, max_curves=6, max_frames=8, wrap=None, null=None, bad_rate=
     # frames: X strictly monotone (distinct doubles: at most 9 significant digits)
     x0, dx, xe = rng.randint(-10 ** 5, 10 ** 6), rng.choice([1, 5, 25, 125, 1524]) * rng.choice([1, -1]), -rng.randint(0, 3)
     nullf = NULL_DEFAULT if null is None or null[0] not in 'if' else (float(null[1]) if null[0] == 'i' else dec_to_float(null[1], null[2]))
+    nm, ne = (null[1], 0) if (null is not None and null[0] == 'i') else (null[1], null[2]) if (null is not None and null[0] == 'f') else (-99925, -2)
     frames = []
     bad_x = allow_bad_x and rng.random() < 0.05
     bad_x_at = rng.randrange(nfr) if (bad_x and nfr) else -1
@@ -407,7 +449,9 @@ def gen_content(rng, max_curves=6, max_frames=8, wrap=None, null=None, bad_rate=
             if rng.random() < bad_rate:
                 row.append(['x', gen_bad_token(rng)])
             elif rng.random() < 0.05:
-                row.append(['n', -99925, -2])
+                row.append(rng.choice([['n', nm, ne], ['n', nm * 100, ne - 2], ['n', -99925, -2]]))
+            elif rng.random() < 0.08:
+                row.append(near_null(rng, nm, ne))
             else:
                 m, e = gen_decimal(rng, emax=rng.choice([3, 20, 320]))
                 row.append(['n', m, e])
